@@ -58,6 +58,7 @@ IDENTITY_CALLS = mir.TRANSPARENT + (
     "std::option::Option::<T>::unwrap", "std::option::Option::<T>::take", "std::boxed::box_assume_init_into_vec_unsafe",
     "std::mem::take", "std::mem::replace", "std::slice::<impl [T]>::to_vec", "std::result::Result::<T, E>::unwrap",
     "std::option::Option::<T>::unwrap_or_default", "std::option::Option::<T>::unwrap_or",
+    "std::iter::Iterator::next",   # `for x in self.items { .. }`: the element is part of the field
 )
 
 
@@ -318,6 +319,21 @@ def skipping_path(fn, adt, variant_discr, read_blocks, self_local=1):
     panics and unwinds do not count.  Returns the line of the offending return or None."""
     blocks = fn["blocks"]
     al = self_aliases(fn, self_local)
+    # locals whose value is handed on, by plain moves, to the return place (the return place of an inlined helper whose result
+    # the function returns as its own): an `Err(..)` built into one of them is an error exit as well
+    retl = {0}
+    changed = True
+    while changed:
+        changed = False
+        for b in blocks:
+            if b["cleanup"]:
+                continue
+            for s in b["s"]:
+                if s["lhs"]["l"] in retl and not s["lhs"]["p"] and s["rv"]["k"] == "use":
+                    pl = mir.op_place(s["rv"]["op"])
+                    if pl is not None and not pl["p"] and pl["l"] not in retl:
+                        retl.add(pl["l"])
+                        changed = True
     seen = set()
     st = [0]
     while st:
@@ -332,7 +348,7 @@ def skipping_path(fn, adt, variant_discr, read_blocks, self_local=1):
         dl = None
         for s in b["s"]:
             rv = s["rv"]
-            if s["lhs"]["l"] == 0 and not s["lhs"]["p"] and rv["k"] == "agg" and rv.get("variant") == "Err":
+            if s["lhs"]["l"] in retl and not s["lhs"]["p"] and rv["k"] == "agg" and rv.get("variant") == "Err":
                 err = True
             if rv["k"] == "discr" and rv["pl"]["l"] in al and not [p for p in rv["pl"]["p"] if p[0] != "d"]:
                 dl = s["lhs"]["l"]
@@ -344,7 +360,7 @@ def skipping_path(fn, adt, variant_discr, read_blocks, self_local=1):
             return t.get("line") or (b["s"][-1]["line"] if b["s"] else fn.get("line"))
         if k == "call":
             c = t.get("callee") or ""
-            if c.endswith("FromResidual::from_residual"):
+            if c.endswith("FromResidual::from_residual") and (t["dest"]["l"] in retl or not blocks[bi].get("inl")):
                 continue
             if t.get("t") is not None:
                 st.append(t["t"])
@@ -373,7 +389,17 @@ def _is_recursing_call(F, t, family_traits, depth=0):
     if c.startswith(("std::ops::Fn::call", "std::ops::FnMut::call_mut", "std::ops::FnOnce::call_once")):
         return True
     r = t.get("resolved") or c
-    if r in F.fns and depth < 3 and not F.fns[r].get("impl_trait"):
+    if tr and not t.get("resolved") and depth < 3 and tr.startswith("tx3_"):
+        # a call through a workspace trait that is not one of the traversal traits (e.g. a private `Pass` / visitor trait the
+        # traversals were unified behind): it continues the traversal if some implementation of that method does
+        for g in F.fns.values():
+            if g.get("impl_trait") == tr and g.get("name") == t.get("method"):
+                for h in [g] + [x for x in F.fns.values() if x.get("owner") == g["path"]]:
+                    for bi, t2 in mir.calls(h):
+                        if _is_recursing_call(F, t2, family_traits, depth + 1):
+                            return True
+        return False
+    if r in F.fns and depth < 3:
         # a helper function of the workspace: it continues the traversal if its own body, or a closure / fn item handed
         # to it, does
         g = F.fns[r]
@@ -424,7 +450,7 @@ def _helper_policy(crate):
         def want(t, callee):
             if callee["crate"] != crate or callee.get("impl_trait") or callee.get("trait_default"):
                 return False
-            return len(callee["blocks"]) <= 120
+            return len(callee["blocks"]) <= 600
         _POLICIES[crate] = want
     return _POLICIES[crate]
 
